@@ -13,8 +13,9 @@ import sys
 import time
 
 ROOT = os.path.dirname(os.path.dirname(os.path.abspath(__file__)))
-EVID = os.path.join(ROOT, "evidence")
-REPLAYS = os.path.join(ROOT, "replays")
+_OUT = os.environ.get("VERIF_OUT")  # dev runs against scratch copies must not clobber /verif/evidence
+EVID = os.path.join(_OUT or ROOT, "evidence")
+REPLAYS = os.path.join(_OUT or ROOT, "replays")
 KNOWN = os.path.join(ROOT, "known_findings.json")
 
 
@@ -110,7 +111,8 @@ def main(argv=None):
     t0 = time.time()
     m = load_prop(pid)
     obs = obligations(pid, a.tier)
-    idxs = [i for i, o in enumerate(obs) if not a.only or a.only in o[0] or a.only in str(o[2])]
+    from .harness import cfg_key
+    idxs = [i for i, o in enumerate(obs) if not a.only or a.only in (o[0] + " " + cfg_key(o[2]))]
     results = []
     ctx = mp.get_context("fork")
     if a.jobs <= 1 or len(idxs) <= 1:
